@@ -267,6 +267,10 @@ pub fn random(a: &Args) -> i32 {
         ("beve-obj".into(), beve::to_vec(&json!({"a": 5})).unwrap()), ("beve-f64s".into(), Message::builder().body_typed_slice(&[1.5f64, 2.5]).build().body),
         ("beve-i32s".into(), Message::builder().body_typed_slice(&[1i32, 2]).build().body), ("beve-trunc".into(), vec![0x64, 0x08, 0x00]), ("binary".into(), vec![0xff, 0x00, 0x80, 0x7f]),
         ("beve-empty-generic".into(), vec![0x05, 0x00]),
+        // the alignment-padded typed array as a client builds it for the 9-byte path "/sliceref" (and one with no padding need)
+        ("beve-aligned-f64s".into(), Message::builder().query_str("/sliceref").body_aligned_typed_slice(&[1.5f64, 2.5]).build().body),
+        ("beve-aligned-u8s".into(), Message::builder().query_str("/sliceref").body_aligned_typed_slice(&[7u8, 8, 9]).build().body),
+        ("beve-aligned-empty".into(), Message::builder().query_str("/sliceref").body_aligned_typed_slice::<f64>(&[]).build().body),
         // JSON syntax carrying bytes that are not valid UTF-8 (inside a string, in a key), overlong and surrogate
         // encodings, a BOM, trailing garbage: "arbitrary body bytes" includes these
         ("json-str-ff".into(), b"\"a\xFFb\"".to_vec()), ("json-obj-badutf8".into(), b"{\"a\":\"\xC3\x28\"}".to_vec()), ("json-key-ff".into(), b"{\"\xFF\":1}".to_vec()),
